@@ -834,6 +834,13 @@ pub fn main(opts: &Opts) {
     }
     report.count_n("byte_strings", seen.len() as u64);
 
+    // C04 — "as any public type": the same byte strings, plus corruptions of valid encodings of protocol
+    // items, decoded as the typed items of fe2o3-amqp-types (composite decoding goes through its own
+    // access types in the deserializer)
+    if prop == "C04" || prop.is_empty() {
+        typed_decoding(&mut rng, &byte_strings, &mut report, &prop, opts.thorough());
+    }
+
     if driver_available() {
         match run_driver(&lines) {
             Ok(model) => {
@@ -880,4 +887,89 @@ pub fn main(opts: &Opts) {
     report.findings.retain(|f| f.kind != "violation" || relevant(&f.key));
     report.write(&opts.report);
     println!("codec: {} cases, {} non-trivial, {} findings", report.evaluations, report.nontrivial.len(), report.findings.len());
+}
+
+fn typed_samples() -> Vec<Vec<u8>> {
+    use fe2o3_amqp_types::definitions::{self, AmqpError, Handle, ReceiverSettleMode, Role};
+    use fe2o3_amqp_types::messaging::{Accepted, DeliveryState, Modified, Rejected};
+    use fe2o3_amqp_types::performatives::*;
+    let err = || definitions::Error::new(AmqpError::InternalError, Some("x".to_string()), None);
+    let mut out: Vec<Vec<u8>> = vec![];
+    let mut push = |p: Performative| out.push(serde_amqp::to_vec(&p).expect("encode"));
+    push(Performative::Open(Open { container_id: "c".into(), hostname: Some("h".into()), max_frame_size: 512.into(), channel_max: 7.into(), idle_time_out: Some(1000), outgoing_locales: None, incoming_locales: None, offered_capabilities: None, desired_capabilities: None, properties: None }));
+    push(Performative::Begin(Begin { remote_channel: Some(1), next_outgoing_id: 2, incoming_window: 3, outgoing_window: 4, handle_max: Handle(5), offered_capabilities: None, desired_capabilities: None, properties: None }));
+    push(Performative::Attach(Attach { name: "l".into(), handle: Handle(1), role: Role::Sender, snd_settle_mode: Default::default(), rcv_settle_mode: ReceiverSettleMode::Second, source: Some(Box::new(Default::default())), target: Some(Box::new(fe2o3_amqp_types::messaging::Target::default().into())), unsettled: None, incomplete_unsettled: false, initial_delivery_count: Some(0), max_message_size: Some(100), offered_capabilities: None, desired_capabilities: None, properties: None }));
+    push(Performative::Flow(Flow { next_incoming_id: Some(1), incoming_window: 2, next_outgoing_id: 3, outgoing_window: 4, handle: Some(Handle(5)), delivery_count: Some(6), link_credit: Some(7), available: Some(8), drain: true, echo: true, properties: None }));
+    push(Performative::Transfer(Transfer { handle: Handle(1), delivery_id: Some(2), delivery_tag: Some(vec![1u8, 2, 3].into()), message_format: Some(0), settled: Some(false), more: true, rcv_settle_mode: None, state: Some(DeliveryState::Accepted(Accepted {})), resume: false, aborted: false, batchable: true }));
+    push(Performative::Disposition(Disposition { role: Role::Receiver, first: 1, last: Some(2), settled: true, state: Some(DeliveryState::Rejected(Rejected { error: Some(err()) })), batchable: false }));
+    push(Performative::Disposition(Disposition { role: Role::Sender, first: 1, last: None, settled: false, state: Some(DeliveryState::Modified(Modified { delivery_failed: Some(true), undeliverable_here: None, message_annotations: None })), batchable: false }));
+    push(Performative::Detach(Detach { handle: Handle(1), closed: true, error: Some(err()) }));
+    push(Performative::End(End { error: Some(err()) }));
+    push(Performative::Close(Close { error: None }));
+    out
+}
+
+fn typed_decoding(rng: &mut Rng, byte_strings: &[Vec<u8>], report: &mut Report, prop: &str, thorough: bool) {
+    use fe2o3_amqp_types::messaging::{message::__private::Deserializable, Body, DeliveryState, Message};
+    use fe2o3_amqp_types::performatives::Performative;
+    let mut inputs: Vec<Vec<u8>> = vec![];
+    for enc in typed_samples() {
+        inputs.push(enc.clone());
+        for _ in 0..(if thorough { 12 } else { 3 }) {
+            corruptions(rng, &enc, &mut inputs);
+        }
+        // every 32-bit window of the list header overwritten with the extreme patterns
+        for i in 0..enc.len().saturating_sub(4) {
+            for pat in [[0xffu8, 0xff, 0xff, 0xff], [0xff, 0xff, 0xff, 0xf0], [0x7f, 0xff, 0xff, 0xff]] {
+                let mut m = enc.clone();
+                m[i..i + 4].copy_from_slice(&pat);
+                inputs.push(m);
+            }
+        }
+        // the composite re-written with 32-bit list header and hostile size / count
+        if enc.len() > 4 && enc[0] == 0x00 && enc[1] == 0x53 {
+            for (size, count) in [(0xffff_fff0u32, 0xffff_ffffu32), (8, 0xffff_ffff), (0xffff_ffff, 1), (4, 0)] {
+                let mut m = vec![0x00, 0x53, enc[2], 0xd0];
+                m.extend_from_slice(&size.to_be_bytes());
+                m.extend_from_slice(&count.to_be_bytes());
+                m.extend_from_slice(&enc[enc.len().min(5)..]);
+                inputs.push(m);
+            }
+        }
+    }
+    let stride = if thorough { 1 } else { 7 };
+    inputs.extend(byte_strings.iter().step_by(stride).filter(|b| b.len() <= 64).cloned());
+    let mut seen = std::collections::HashSet::new();
+    let mut n = 0u64;
+    // panics are caught and reported as findings; the default hook's backtrace would only add noise (and allocations)
+    let prev_hook = std::panic::take_hook();
+    std::panic::set_hook(Box::new(|_| {}));
+    for bs in &inputs {
+        if !seen.insert(fnv(&hex(bs))) {
+            continue;
+        }
+        n += 1;
+        report.evaluations += 1;
+        let targets: [(&str, Box<dyn Fn(&[u8]) -> bool>); 3] = [
+            ("Performative", Box::new(|b: &[u8]| serde_amqp::from_slice::<Performative>(b).is_ok())),
+            ("DeliveryState", Box::new(|b: &[u8]| serde_amqp::from_slice::<DeliveryState>(b).is_ok())),
+            ("Message", Box::new(|b: &[u8]| serde_amqp::from_slice::<Deserializable<Message<Body<serde_amqp::Value>>>>(b).is_ok())),
+        ];
+        for (name, f) in targets.iter() {
+            let (r, alloc, largest) = tracked(|| std::panic::catch_unwind(std::panic::AssertUnwindSafe(|| f(bs))));
+            let short = if bs.len() > 48 { format!("{}..({} bytes)", hex(&bs[..48]), bs.len()) } else { hex(bs) };
+            match r {
+                Ok(ok) => report.count(if ok { "typed_decode_ok" } else { "typed_decode_err" }),
+                Err(p) => {
+                    let msg = p.downcast_ref::<String>().cloned().or_else(|| p.downcast_ref::<&str>().map(|s| s.to_string())).unwrap_or_default();
+                    report.finding(Finding { kind: "violation", key: format!("decode-panic:{}", name), description: format!("decoding {} as {} panicked: {}", short, name, msg), replay: json!({"property": prop, "module": "codec", "typed": name, "bytes": hex(bs)}) });
+                }
+            }
+            if largest > 64 * bs.len() as u64 + 6_000_000 || alloc > 4096 * (bs.len() as u64 + 16) + 12_000_000 {
+                report.finding(Finding { kind: "violation", key: format!("decode-allocation:{}", name), description: format!("decoding {} as {} allocated {} bytes in total, {} in one piece", short, name, alloc, largest), replay: json!({"property": prop, "module": "codec", "typed": name, "bytes": hex(bs)}) });
+            }
+        }
+    }
+    std::panic::set_hook(prev_hook);
+    report.count_n("typed_inputs", n);
 }
